@@ -107,8 +107,21 @@ func appOptions(home string) simtestutil.AppOptionsMap {
 	return simtestutil.AppOptionsMap{"home": home, "crisis.skip-genesis-invariants": true}
 }
 
+// newApp builds the application and loads the latest version itself (app.New with loadLatest=true calls os.Exit on a load error).
 func newApp(db dbm.DB, home string, logger log.Logger) *app.App {
-	return app.New(logger, db, nil, true, appOptions(home), baseapp.SetChainID(chainID))
+	a, err := newAppErr(db, home, logger)
+	if err != nil {
+		panic(err)
+	}
+	return a
+}
+
+func newAppErr(db dbm.DB, home string, logger log.Logger) (*app.App, error) {
+	a := app.New(logger, db, nil, false, appOptions(home), baseapp.SetChainID(chainID))
+	if err := a.LoadLatestVersion(); err != nil {
+		return nil, fmt.Errorf("error on loading last version: %w", err)
+	}
+	return a, nil
 }
 
 // NewChain builds a fresh application, runs InitChain, one empty block (height 1) and BeginBlock(2):
@@ -278,7 +291,11 @@ func (c *Chain) Restart() (err error) {
 			err = fmt.Errorf("PANIC in restart: %v", r)
 		}
 	}()
-	c.App = newApp(c.DB, c.Home, c.Logger)
+	a, err := newAppErr(c.DB, c.Home, c.Logger)
+	if err != nil {
+		return err
+	}
+	c.App = a
 	c.Height = c.App.LastBlockHeight()
 	c.InBlock = false
 	return nil
@@ -303,6 +320,7 @@ type TxResult struct {
 	Log       string
 	Panic     bool
 	GasUsed   int64
+	GasWanted int64
 	Data      []byte
 	Events    []abci.Event
 	TxBytes   []byte
@@ -377,7 +395,9 @@ func (c *Chain) DeliverRaw(txBytes []byte) (res TxResult) {
 		}
 	}()
 	r := c.App.DeliverTx(abci.RequestDeliverTx{Tx: txBytes})
-	return classify(r.Code, r.Codespace, r.Log, r.GasUsed, r.Data, r.Events, txBytes)
+	res = classify(r.Code, r.Codespace, r.Log, r.GasUsed, r.Data, r.Events, txBytes)
+	res.GasWanted = r.GasWanted
+	return res
 }
 
 func classify(code uint32, codespace, logStr string, gasUsed int64, data []byte, events []abci.Event, txBytes []byte) (res TxResult) {
